@@ -46,8 +46,10 @@ ASSUMPTIONS = [
     "from outside, no hair-pinning; symmetric NATs and multi-level NATs are outside the statement",
     "the same-host branch (address_is_lan, which inspects the real machine's interfaces) is not exercised: LAN address "
     "providers are emptied by the virtual loop",
-    "no datagram loss, duplication or reordering beyond the drawn delivery order; no peer churn, no strategies running "
-    "(A's walks are issued by the check through walk_to)",
+    "no datagram loss, duplication or reordering beyond the drawn delivery order; no peer churn; A's walks are issued "
+    "by the check through walk_to, or (walker > 0) by the stock RandomWalk strategy stepped by the check, which then "
+    "keeps stepping for 5 virtual seconds after the exchange (walker 2: the introduced peer has sent A an "
+    "introduction request of its own) - both must still be each other's verified peers",
     "where B's puncture goes when A and B share a WAN IP is not judged (LAN traffic needs no filter entry): the pinned "
     "tree sends it to the introducer's address, counted as class puncture_same_nat:*",
     "the hand-written field decoder for messages 245/233/250/232 (layout from payload.py docstrings and format lists)",
@@ -155,6 +157,7 @@ class Scenario:
         self.pr_requester: dict[int, tuple] = {}      # puncture-request flight seq -> (requesting node, introducer)
         self.events: list[dict] = []
         self.picks = Picks(case["picks"])
+        self.rw = None
         cls = overlay_class()
 
         def box(name: str, ip: str, kind: str):
@@ -449,8 +452,18 @@ class Scenario:
         walkable = sorted(tuple(a) for a in A.overlay.get_walkable_addresses())
         perms = list(itertools.islice(itertools.permutations(range(len(walkable))), 24))
         order = perms[self.case["order"] % len(perms)] if walkable else ()
-        for i in order:
-            A.overlay.walk_to(UDPv4Address(*walkable[i]))
+        if self.case.get("walker"):
+            # A's contact attempts are made by the stock RandomWalk strategy (it remembers what it walked to)
+            if self.rw is None:
+                from ipv8.peerdiscovery.discovery import RandomWalk
+                self.rw = RandomWalk(A.overlay, timeout=3.0, window_size=0, reset_chance=0)
+            for _ in range(4 * len(walkable)):
+                if not set(map(tuple, A.overlay.get_walkable_addresses())) - set(map(tuple, self.rw.intro_timeouts)):
+                    break
+                self.rw.take_step()
+        else:
+            for i in order:
+                A.overlay.walk_to(UDPv4Address(*walkable[i]))
         collect_walks()
         for _ in range(2000):
             if not step(False):
@@ -501,7 +514,36 @@ class Scenario:
             self.fail(clause, "peers", f"{desc}: {X.name} is not in A.get_peers() after the exchange")
         if not self.is_peer(X, A):
             self.fail(clause, "peers", f"{desc}: A is not in {X.name}.get_peers() after the exchange")
+        summary["X_node"], summary["desc"], summary["clause"] = X, desc, clause
         return summary
+
+    async def aftermath(self, summary: dict) -> None:
+        """
+        "... so both END UP as verified peers of each other": the introduced peer contacts its new peer A in turn (what
+        its own walk does), A's walker keeps stepping while its unanswered probes time out. Both must still be each
+        other's verified peers afterwards.
+        """
+        import asyncio
+        X, A = summary.pop("X_node", None), self.A
+        if X is None or not self.case.get("walker") or self.rw is None:
+            return
+        if self.case["walker"] > 1:
+            X.overlay.send_introduction_request(self.peer_at(X, A))
+            self.drain_fifo()
+        def both(when: str) -> None:
+            for a, b in ((A, X), (X, A)):
+                if not self.is_peer(a, b):
+                    self.fail(summary["clause"], "peers:kept",
+                              f"{summary['desc']}: both were verified peers of each other after the exchange; {when} (A's "
+                              f"walker kept stepping{', ' + X.name + ' had sent A a request of its own' if self.case['walker'] > 1 else ''}"
+                              f") {b.name} is no longer in {a.name}.get_peers()")
+        for k in range(10):
+            await asyncio.sleep(0.5)
+            self.rw.take_step()
+            both("%.1f s later" % (0.5 * (k + 1)))
+            self.drain_fifo()
+            both("%.1f s later" % (0.5 * (k + 1)))
+        self.hist.append("aftermath:walker%d" % self.case["walker"])
 
 
 def execute(ctx: Ctx | None, case: dict) -> list[dict]:
@@ -515,6 +557,9 @@ def execute(ctx: Ctx | None, case: dict) -> list[dict]:
             sc.setup()
             for r in range(case["rounds"]):
                 out.append(sc.round(r))
+                await sc.aftermath(out[-1])
+                for k in ("X_node", "desc", "clause"):
+                    out[-1].pop(k, None)
         finally:
             hist.extend(sc.hist)
         if sc.net.escaped:
@@ -561,7 +606,7 @@ def base_case(cfg: dict, idx: int) -> dict:
     return {"natA": cfg["natA"], "natB": cfg["natB"], "place": cfg["place"], "style": cfg["style"],
             "b_new": cfg["b_new"], "fillers": [["pub", 0]] * (cfg["k"] - 1), "rseed": idx, "rounds": 1,
             "picks": [], "early": 0, "order": 0, "alike": (idx // 5) % 2, "disc": (idx // 10) % 2,
-            "pool": (idx // 20) % 2}
+            "pool": (idx // 20) % 2, "walker": (idx // 2) % 3}
 
 
 def _strategy(cfg: dict):
@@ -580,6 +625,7 @@ def _strategy(cfg: dict):
         "alike": st.integers(0, 1),
         "disc": st.integers(0, 1),
         "pool": st.sampled_from([0, 0, 1]),
+        "walker": st.sampled_from([0, 0, 1, 2, 2]),
     })
 
 
